@@ -93,9 +93,9 @@ def run(ctx):
         the shape whose closure needs long walks (cycles through a heavy edge)"""
         vs = names[:nv]
         r = leaf(rng, vs, 2)
-        for _ in range(rng.randint(1, 3)):
+        for _ in range(rng.randint(1, 4)):
             nxt = leaf(rng, vs, 2)
-            r = (r + nxt) if rng.random() < 0.5 else (r * nxt)
+            r = (r + nxt) if rng.random() < 0.6 else (r * nxt)
         return r
 
     n_total = ctx.budget(260, 5000)
@@ -104,9 +104,9 @@ def run(ctx):
             break
         nidx = rng.randint(1, 3)
         try:
-            if it % 3 == 0:
+            if it % 2 == 0:
                 nidx = 2
-                r1 = loop_body(rng.choice([2, 2, 3]))
+                r1 = loop_body(rng.choice([2, 3, 3, 4]))
                 r2 = loop_body(2)
             else:
                 r1 = build(rng, names, nidx, rng.randint(0, 2))
